@@ -193,14 +193,18 @@ def run_app(sc, choices=None, world_hook=None):
 
         kwargs = {n: mk(n) for n in CALLBACKS if n in cbs}
         app = ws.WebSocketApp(url, **kwargs)
-        rf = {}
-        for k in ("ping_interval", "ping_timeout", "reconnect"):
-            if runopt.get(k) is not None:
-                rf[k] = runopt[k] / S if isinstance(runopt[k], int) and runopt.get("ticks", True) else runopt[k]
-        if runopt.get("ping_payload") is not None:
-            rf["ping_payload"] = runopt["ping_payload"]
-        if runopt.get("skip_utf8"):
-            rf["skip_utf8_validation"] = True
+        def build_rf(ro):
+            rf_ = {}
+            for k in ("ping_interval", "ping_timeout", "reconnect"):
+                if ro.get(k) is not None:
+                    rf_[k] = ro[k] / S if isinstance(ro[k], int) and ro.get("ticks", True) else ro[k]
+            if ro.get("ping_payload") is not None:
+                rf_["ping_payload"] = ro["ping_payload"]
+            if ro.get("skip_utf8"):
+                rf_["skip_utf8_validation"] = True
+            return rf_
+
+        rf = build_rf(runopt)
         if tls or url_tls:
             import ssl
             rf["sslopt"] = {"cert_reqs": ssl.CERT_NONE, "check_hostname": False}
@@ -267,6 +271,10 @@ def run_app(sc, choices=None, world_hook=None):
                 outcomes[:] = [c.get("outcome", "accept") for c in conns]
                 attempt[0] = 0
                 del conn_specs[:]
+                if sec.get("run") is not None:
+                    # the second run_forever call is made with other keepalive / reconnect arguments
+                    keep = {k: v for k, v in rf.items() if k in ("sslopt", "dispatcher")}
+                    rf = dict(build_rf(dict(sec["run"])), **keep)
             try:
                 if policy.get("kind") in ("prob", "pct", "at"):
                     w.k.start_tracing()
